@@ -706,6 +706,25 @@ func (w *idpWorld) registryMoveHistory(entities []string) {
 	w.impl = append(w.impl, "0/empty/-")
 	w.n++
 	w.shortcut("sc1", "", sid0, nil)
+	// several providers in the store when the server starts: each issuer is still resolved against its own metadata
+	// (requests that name no endpoint, and the shortcuts)
+	w.putService("svc2", entities[1], true, false, nil)
+	w.putService("svc3", entities[2], true, false, nil)
+	w.putShortcut("sc2", entities[1], nil, false, false, nil)
+	w.putShortcut("sc3", entities[2], nil, false, false, nil)
+	for round := 0; round < 2; round++ {
+		w.store.faults = nil
+		w.newServer()
+		w.toks = append(w.toks, "restart", "0")
+		w.impl = append(w.impl, "0/empty/-")
+		w.n++
+		for _, e := range entities {
+			w.sso(e, true, "", "", false, sid0, "rs", nil)
+		}
+		w.shortcut("sc1", "", sid0, nil)
+		w.shortcut("sc2", "", sid0, nil)
+		w.shortcut("sc3", "", sid0, nil)
+	}
 }
 
 func (c *Ctx) genC19() {
